@@ -231,4 +231,108 @@ theorem C08_source_unconfigured_refused (F : FieldDec) (flags : List Bool) (cfg 
   simp only [Rt.forO, loopStep, getItem_in flags b h0 h1, bind_ok_eq, hflag, if_true, hcfg, Bool.not_false]
   rfl
 
+/-! ### the WHOLE function: header split, bitmap, MTI check, then the loop -/
+
+/-- what the statements before the loop compute: the MTI text, the 16 bitmap bytes and the message data — or the
+    library's data error (message shorter than its header, a hexadecimal bitmap that is no hexadecimal text, an MTI
+    that does not decode or is no number) -/
+def header (enc : Bytes → Outcome Text) (hex : Bool) (message : Bytes) : Outcome (Text × Bytes × Bytes) :=
+  Outcome.bind (Rt.catchData [.structError, .binasciiError]
+      (Rt.unpack3 4 (if hex then 32 else 16) (Rt.len message - (if hex then (36 : Int) else (20 : Int))) message)) (fun t =>
+    Outcome.bind (if hex then Rt.catchData [.structError, .binasciiError] (Rt.unhexlify t.2.1) else .ok t.2.1) (fun bm =>
+      Outcome.bind (Rt.catchData [.valueError, .unicodeError] (enc t.1)) (fun mti =>
+        Outcome.bind (Rt.catchData [.valueError, .unicodeError] (Rt.pyvalInt Gen.intClasses (Rt.PyVal.str mti))) (fun _ =>
+          .ok (mti, bm, t.2.2)))))
+
+theorem catch_ok {α} (ks : List ExcKind) (a : α) : Rt.catchData ks (Outcome.ok a) = .ok a := rfl
+
+theorem mti_get (mti : Text) :
+    Rt.dictGet (Rt.dictSet ([] : Rt.SDict Rt.PyVal) [77, 84, 73] (Rt.PyVal.str mti)) [77, 84, 73] = .ok (Rt.PyVal.str mti) := by
+  simp [Rt.dictSet, Rt.dictGet]
+
+/-- `_iso8583_to_dict` as translated = its header statements followed by the element loop started with the MTI entry -/
+theorem whole_eq (G : Bytes → List Bool) (F : FieldDec) (message : Bytes) (cfg : Rt.SDict Rt.BitCfg)
+    (enc : Bytes → Outcome Text) (hex : Bool) :
+    Src._iso8583_to_dict G F message cfg enc hex =
+      Outcome.bind (header enc hex message) (fun h =>
+        Src._iso8583_to_dict_loop G F message h.2.2 h.2.1 cfg enc [([77, 84, 73], Rt.PyVal.str h.1)]) := by
+  unfold Src._iso8583_to_dict header Src._iso8583_to_dict_loop
+  cases hex
+  · simp only [Bool.false_eq_true, if_false]
+    cases Rt.catchData [.structError, .binasciiError] (Rt.unpack3 4 16 (Rt.len message - 20) message) with
+    | ok t =>
+      simp only [bind_ok_eq]
+      cases Rt.catchData [.valueError, .unicodeError] (enc t.1) with
+      | ok mti =>
+        simp only [bind_ok_eq, mti_get, catch_ok]
+        cases Rt.catchData [.valueError, .unicodeError] (Rt.pyvalInt Gen.intClasses (Rt.PyVal.str mti)) <;> rfl
+      | dataError => rfl
+      | escape k => rfl
+      | diverge => rfl
+    | dataError => rfl
+    | escape k => rfl
+    | diverge => rfl
+  · simp only [if_true]
+    cases Rt.catchData [.structError, .binasciiError] (Rt.unpack3 4 32 (Rt.len message - 36) message) with
+    | ok t =>
+      simp only [bind_ok_eq]
+      cases Rt.catchData [.structError, .binasciiError] (Rt.unhexlify t.2.1) with
+      | ok bm =>
+        simp only [bind_ok_eq]
+        cases Rt.catchData [.valueError, .unicodeError] (enc t.1) with
+        | ok mti =>
+          simp only [bind_ok_eq, mti_get, catch_ok]
+          cases Rt.catchData [.valueError, .unicodeError] (Rt.pyvalInt Gen.intClasses (Rt.PyVal.str mti)) <;> rfl
+        | dataError => rfl
+        | escape k => rfl
+        | diverge => rfl
+      | dataError => rfl
+      | escape k => rfl
+      | diverge => rfl
+    | dataError => rfl
+    | escape k => rfl
+    | diverge => rfl
+
+/-- C08 for the WHOLE decoder as translated: it returns `d` exactly when the header statements succeed — giving the
+    MTI text, the bitmap and the message data — and the elements flagged in that bitmap, in ascending order, tile the
+    message data from 0 to its length, `d` being the MTI entry updated with every element's entries in that order -/
+theorem C08_source_whole (G : Bytes → List Bool) (F : FieldDec) (message : Bytes) (cfg : Rt.SDict Rt.BitCfg)
+    (enc : Bytes → Outcome Text) (hex : Bool) (d : Rt.SDict Rt.PyVal) (hG : ∀ bm, (G bm).length = 129) :
+    Src._iso8583_to_dict G F message cfg enc hex = .ok d ↔
+      ∃ mti bm data, header enc hex message = .ok (mti, bm, data) ∧
+        Tiles F cfg enc data (flagged (G bm) (Rt.range 2 129)) 0 [([77, 84, 73], Rt.PyVal.str mti)] (Rt.len data) d := by
+  rw [whole_eq]
+  constructor
+  · intro h
+    cases hh : header enc hex message with
+    | ok t =>
+      obtain ⟨mti, bm, data⟩ := t
+      rw [hh, bind_ok_eq] at h
+      exact ⟨mti, bm, data, rfl, (C08_source_loop_tiles G F message data bm cfg enc _ d (hG bm)).mp h⟩
+    | dataError => rw [hh] at h; cases h
+    | escape k => rw [hh] at h; cases h
+    | diverge => rw [hh] at h; cases h
+  · intro ⟨mti, bm, data, hh, ht⟩
+    rw [hh, bind_ok_eq]
+    exact (C08_source_loop_tiles G F message data bm cfg enc _ d (hG bm)).mpr ht
+
+/-- a message shorter than its header (20 bytes with a binary bitmap, 36 with a hexadecimal one) is the library's data
+    error, whatever follows -/
+theorem C08_source_short_refused (G : Bytes → List Bool) (F : FieldDec) (message : Bytes) (cfg : Rt.SDict Rt.BitCfg)
+    (enc : Bytes → Outcome Text) (hex : Bool) (h : message.length < (if hex then 36 else 20)) :
+    Src._iso8583_to_dict G F message cfg enc hex = .dataError := by
+  rw [whole_eq]
+  unfold header Rt.unpack3 Rt.len
+  cases hex
+  · simp only [Bool.false_eq_true, if_false] at h ⊢
+    have : ((message.length : Int) - 20 < 0 ∨ (message.length : Int) ≠ ((4 : Nat) : Int) + ((16 : Nat) : Int) + ((message.length : Int) - 20)) := by
+      left; omega
+    rw [if_pos this]
+    rfl
+  · simp only [if_true] at h ⊢
+    have : ((message.length : Int) - 36 < 0 ∨ (message.length : Int) ≠ ((4 : Nat) : Int) + ((32 : Nat) : Int) + ((message.length : Int) - 36)) := by
+      left; omega
+    rw [if_pos this]
+    rfl
+
 end Cardutil.SrcTie
